@@ -173,6 +173,12 @@ func c03R5(c *Ctx, r *Report) {
 					if all {
 						return true
 					}
+					// a helper that holds only if one operand is an untyped literal
+					if cl, ok := cond.(*ast.CallExpr); ok {
+						if f := callee(info, cl); f != nil && impliesUntyped(c, f) {
+							return true
+						}
+					}
 					// string concatenation: left operand is a string
 					if o := objOf(info, cond); o != nil && strFlag[o] {
 						return true
@@ -311,4 +317,41 @@ func c03R6(c *Ctx, r *Report) {
 	}
 	check("OR_TOKEN", 0, "then-context of ||")
 	check("AND_TOKEN", 1, "else-context of &&")
+}
+
+// impliesUntyped: f is a boolean helper that returns false first thing unless one of its parameters is an
+// untyped literal type — `if !types.IsUntyped(a) && !types.IsUntyped(b) { return false }` as its first statement.
+func impliesUntyped(c *Ctx, f *types.Func) bool {
+	hf := c.FnOf(f)
+	if hf == nil || hf.Decl == nil || hf.Decl.Body == nil || len(hf.Decl.Body.List) == 0 {
+		return false
+	}
+	ifs, ok := hf.Decl.Body.List[0].(*ast.IfStmt)
+	if !ok || ifs.Init != nil || len(ifs.Body.List) != 1 {
+		return false
+	}
+	ret, ok := ifs.Body.List[0].(*ast.ReturnStmt)
+	if !ok || len(ret.Results) != 1 || exprStr(ret.Results[0]) != "false" {
+		return false
+	}
+	n := 0
+	for _, cj := range conjuncts(ifs.Cond) {
+		u, ok := ast.Unparen(cj).(*ast.UnaryExpr)
+		if !ok || u.Op != token.NOT {
+			return false
+		}
+		cl, ok := ast.Unparen(u.X).(*ast.CallExpr)
+		if !ok || len(cl.Args) != 1 {
+			return false
+		}
+		g := callee(hf.Info(), cl)
+		if g == nil || g.Name() != "IsUntyped" {
+			return false
+		}
+		if o := objOf(hf.Info(), cl.Args[0]); o == nil || !isParamOf(hf, o) {
+			return false
+		}
+		n++
+	}
+	return n > 0
 }
